@@ -1257,6 +1257,18 @@ def _observe(m, c, h, poison, backwards):
             out["edist"] = ed if _is_err(ed) else _canon_kv(ed.distribution_dict, _bits_of_key)
 
     def see_exact():
+        if h.get("decoy"):
+            # a DECOY use of the same long-lived operator object through another public route (the other basis-state
+            # convention: bit-reversed state + reverse_operator=True – mathematically the same number); not judged here,
+            # but whatever the library remembers about the operator from it must not reach the view asked for next
+            try:
+                wfd = h["wf"]()
+                a = np.array(wfd.amplitudes, dtype=complex).reshape(-1)
+                nq = max(len(a).bit_length() - 1, 0)
+                rev = [int(format(i, "0%db" % nq)[::-1], 2) if nq else 0 for i in range(len(a))]
+                m["get_ev"](op, m["Wavefunction"](a[rev]), reverse_operator=True)
+            except Exception:
+                pass
         ex = _stage(h["exact"])
         out["exact"] = ex if _is_err(ex) else float(ex)
 
@@ -1302,7 +1314,8 @@ def _run_views(m, c, env):
         ops_reg[okey] = _build_operator(m, c["operator"], c.get("op_form"))
     op = ops_reg[okey]
     env["last_op"] = (op, c["operator"], c.get("op_form"))
-    h = {"op": op, "box": env.get("box"), "bessel": bool(c.get("twice"))}
+    h = {"op": op, "box": env.get("box"), "bessel": bool(c.get("twice")),
+         "decoy": bool(c.get("twice")) or "sim" in env or "wf" in env or c["seed"] % 3 == 0}
     if "amps" in c:
         wf = env.get("wf")
         if wf is not None and c.get("setitem") is not None:
